@@ -42,8 +42,8 @@ theorem post_animP : Post animP (fun an => an.Rep ∧ ∀ f ∈ an.frames, f.lay
   refine post_bind (post_true _) fun hd _ => post_bind (post_guard _ _) fun _ hg1 =>
     post_bind (post_many post_frameP _) fun frs hfrs => post_bind post_u32 fun nuc hnuc =>
       post_bind (post_guard _ _) fun _ hg2 => post_bind (post_many post_ucP _) fun ucs hucs => post_pure ?_
-  have hg1 := of_decide_eq_true hg1
-  have hg2 := of_decide_eq_true hg2
+  have hg1 := fits_iff.mp hg1
+  have hg2 := fits_iff.mp hg2
   refine ⟨⟨decU32_lt _, decU32_lt _, decU32_lt _, decU32_lt _, decU32_lt _, decU32_lt _, decU32_lt _, decU32_lt _,
     ?_, ?_, fun f hf => (hfrs.2 f hf).1, ?_, ?_, hucs.2⟩, fun f hf => (hfrs.2 f hf).2⟩
   · show frs.length < W32; rw [hfrs.1]; exact decU32_lt _
@@ -68,11 +68,11 @@ theorem post_readFull : Post readFull (fun r =>
         post_bind (post_guard _ _) fun _ hval => post_bind post_u32 fun na hna => post_bind (post_guard _ _) fun _ hg2 =>
           post_bind (post_true _) fun tot _ => post_bind (post_many post_animP _) fun ans hans =>
             post_bind (post_guard _ _) fun _ htot => post_pure ?_
-  have hg0 := of_decide_eq_true hg0
-  have hg1 := of_decide_eq_true hg1
-  have hg2 := of_decide_eq_true hg2
-  simp only [Bool.and_eq_true, beq_iff_eq] at htot
-  have hval' : ∀ im ∈ ims, imageOk hps.length im = true := List.all_eq_true.mp hval
+  have hg0 := fits_iff.mp hg0
+  have hg1 := fits_iff.mp hg1
+  have hg2 := fits_iff.mp hg2
+  simp only [totalsOk, Bool.and_eq_true, beq_iff_eq] at htot
+  have hval' : ∀ im ∈ ims, imageOk hps.length im = true := List.all_eq_true.mp (by simpa [imagesOk] using hval)
   refine ⟨⟨?_, ?_, ?_, ?_, ?_, hims.2, ?_, ?_, fun an h => (hans.2 an h).1, ?_, ?_, decU32_lt _⟩, ⟨?_, ?_⟩, by simp, ?_⟩
   · show (hps.map (·.2)).length < W32; simp [hhps.1]; exact decU32_lt _
   · show (hps.map (·.2)).length * _ ≤ _; simp [hhps.1]; exact hg0
